@@ -234,7 +234,7 @@ func init() {
 		Explanation: "Decides operator order and pairing in the plan builders: WHERE filter below GROUP BY on every path with a WHERE; HAVING applied between Flatten and ORDER/LIMIT in both planners that group on this node, keeping exactly rows whose helper value is 1 and hiding the helper column; IN-subqueries run before the predicate and nil results drop the row. Added clauses: goroutines started per IN-subquery bind per-iteration values (go 1.12 loop variables); _having is the last field the group operator emits, also with CROSSTABT totals.",
 		NotDecided:  []string{"predicate evaluation inside goexpr", "HAVING arithmetic", "equality with a differential run", "FROM (subquery) field mapping beyond Unflatten's wiring"},
 		Assumptions: []string{"goexpr.Expr.Eval returns a bool or nil for boolean predicates"},
-		Rules:       []func(*Ctx){func(c *Ctx) { ruleC08a(c, "C08.a") }, func(c *Ctx) { ruleC08b(c, "C08.b") }, func(c *Ctx) { ruleC08c(c, "C08.c") }, func(c *Ctx) { ruleC08d(c, "C08.d") }, func(c *Ctx) { ruleLoopCapture(c, "C08.e", "z/planner") }, func(c *Ctx) { ruleC08f(c, "C08.f") }},
+		Rules:       []func(*Ctx){func(c *Ctx) { ruleC08a(c, "C08.a") }, func(c *Ctx) { ruleC08b(c, "C08.b") }, func(c *Ctx) { ruleC08c(c, "C08.c") }, func(c *Ctx) { ruleC08d(c, "C08.d") }, func(c *Ctx) { ruleLoopCapture(c, "C08.e", "z/planner") }, func(c *Ctx) { ruleC08f(c, "C08.f") }, func(c *Ctx) { ruleC08g(c, "C08.g") }, func(c *Ctx) { ruleC08h(c, "C08.h") }},
 	})
 }
 
@@ -465,4 +465,110 @@ func ruleC08f(c *Ctx, rule string) {
 		}
 	}
 	c.check(rule, "group.Iterate: _having is the last crosstab output field", h.Pos(), later == "", "no output field is appended after _having", "an output field is appended after the _having field (at "+later+"): addHaving reads the include flag from the last value and strips only that one, so with CROSSTABT rows are kept or dropped by a total column and the helper value stays in the row")
+}
+
+// ruleC08g: value comparisons in HAVING / conditional expressions are exact.
+func ruleC08g(c *Ctx, rule string) {
+	c.describe(rule, "reg: each comparison registered with registerCond implements exactly its operator on its two arguments — the closure registered for \"=\" returns left == right, for \"<>\" left != right, and likewise <, <=, >=, > (no tolerance, no swapped operands): HAVING keeps exactly the rows whose values satisfy the predicate")
+	want := map[string]token.Token{"<": token.LSS, "<=": token.LEQ, "=": token.EQL, "<>": token.NEQ, ">=": token.GEQ, ">": token.GTR}
+	seen := map[string]bool{}
+	for _, fn := range c.P.ModFns {
+		if pkgOf(fn) != "z/expr" {
+			continue
+		}
+		for _, call := range callsTo(fn, "z/expr.registerCond") {
+			a := call.Common().Args
+			op, ok := constString(a[0])
+			if !ok {
+				continue
+			}
+			tk, cmp := want[op]
+			if !cmp {
+				continue
+			}
+			seen[op] = true
+			var f *ssa.Function
+			switch x := a[1].(type) {
+			case *ssa.MakeClosure:
+				f, _ = x.Fn.(*ssa.Function)
+			case *ssa.Function:
+				f = x
+			case *ssa.ChangeType:
+				if fx, isF := x.X.(*ssa.Function); isF {
+					f = fx
+				}
+				if mc, isMC := x.X.(*ssa.MakeClosure); isMC {
+					f, _ = mc.Fn.(*ssa.Function)
+				}
+			}
+			exact := false
+			if f != nil && len(f.Params) == 2 {
+				c.touch(f)
+				exact = true
+				nRet := 0
+				for _, in := range instrs(f) {
+					r, isR := in.(*ssa.Return)
+					if !isR {
+						continue
+					}
+					nRet++
+					b, isB := r.Results[0].(*ssa.BinOp)
+					if !isB || b.Op != tk || b.X != ssa.Value(f.Params[0]) || b.Y != ssa.Value(f.Params[1]) {
+						exact = false
+					}
+				}
+				if nRet == 0 {
+					exact = false
+				}
+			}
+			c.check(rule, "registered comparison "+op+" is exact", call.Pos(), exact, "returns left "+tk.String()+" right", "the comparison registered for "+op+" is not exactly 'left "+tk.String()+" right' (tolerance, rounding or different operands): HAVING / IF conditions keep or drop rows whose values do not satisfy the written predicate (e.g. = 100000 also matches 100001 with a relative epsilon)")
+		}
+	}
+	for op := range want {
+		if !seen[op] {
+			c.undecided(rule, "registered comparison "+op+" is exact", token.NoPos, "no registerCond call with the constant operator "+op+" found")
+		}
+	}
+}
+
+// ruleC08h: a row handed to a row consumer is the consumer's to keep.
+func ruleC08h(c *Ctx, rule string) {
+	c.describe(rule, "flow (ownership): the Vals slice an operator in package core passes to an OnRow callback is either the one it received from its own source for this row or one allocated during this call — never a buffer kept across rows (captured variable / field): consumers such as the CROSSTAB path of group.Iterate retain rows until the scan ends")
+	n := 0
+	for _, fn := range c.P.ModFns {
+		if pkgOf(fn) != "z/core" {
+			continue
+		}
+		for _, call := range calls(fn) {
+			cc := call.Common()
+			if cc.IsInvoke() || cc.StaticCallee() != nil || typeStr(cc.Value.Type()) != "z/core.OnRow" || len(cc.Args) != 2 {
+				continue
+			}
+			n++
+			c.touch(fn)
+			v := strip(cc.Args[1])
+			kind := "other"
+			switch x := v.(type) {
+			case *ssa.Parameter:
+				kind = "passed through"
+			case *ssa.MakeSlice, *ssa.Slice, *ssa.Alloc, *ssa.Call:
+				kind = "allocated in this call"
+				_ = x
+			case *ssa.UnOp:
+				if x.Op == token.MUL {
+					cell := cellRoot(x.X)
+					if al, isAl := cell.(*ssa.Alloc); isAl && al.Parent() == fn {
+						kind = "local"
+					} else {
+						kind = "kept across rows"
+					}
+				}
+			case *ssa.Phi:
+				kind = "local"
+			}
+			top := topOf(fn)
+			c.check(rule, stableName(top)+": row #"+itoa(perTopCount(c, rule, top))+" handed to the consumer is not a reused buffer", call.Pos(), kind != "kept across rows", kind, "the values passed to the row consumer live in a variable that survives the row (captured by the callback / a field): every row a consumer retained (CROSSTAB buffering in group.Iterate, sorting) ends up holding the last row's values")
+		}
+	}
+	c.floor(rule, "OnRow calls in package core", n, 3)
 }
